@@ -50,7 +50,58 @@ fn limit_case(ctx: &mut Ctx, n: u32, depth: usize) {
     }
 }
 
+/// `comp (pair (injl|injr unit) unit) (case A B)` where one branch needs many cells and few frames
+/// (a wide `comp`) and the other no cells and many frames (a chain of zero-width `comp`s), in both
+/// branch orders and with both selections: case branches of unequal, *incomparable* cost
+fn incomparable_case(ctx: &mut Ctx, word_n: u32, depth: usize, wide_left: bool, take_left: bool) {
+    use PNode::*;
+    // every use of `unit` is its own node: a shared node has one type
+    let mut nodes: Vec<PNode> = vec![];
+    let mut push = |nodes: &mut Vec<PNode>, n: PNode| {
+        nodes.push(n);
+        nodes.len() - 1
+    };
+    // wide: comp (comp unit word) unit : X → 1, with a 2^word_n-bit middle type
+    let u1 = push(&mut nodes, Unit);
+    let w = push(&mut nodes, Word(word_n, (0..(1usize << word_n)).map(|i| i % 2 == 0).collect()));
+    let c1 = push(&mut nodes, Comp(u1, w));
+    let u2 = push(&mut nodes, Unit);
+    let wide = push(&mut nodes, Comp(c1, u2));
+    // deep: comp unit (comp unit (… unit))
+    let mut deep = push(&mut nodes, Unit);
+    for _ in 0..depth {
+        let u = push(&mut nodes, Unit);
+        deep = push(&mut nodes, Comp(u, deep));
+    }
+    let (l, r) = if wide_left { (wide, deep) } else { (deep, wide) };
+    let cs = push(&mut nodes, Case(l, r));
+    let u3 = push(&mut nodes, Unit);
+    let sel = push(&mut nodes, if take_left { InjL(u3) } else { InjR(u3) });
+    let u4 = push(&mut nodes, Unit);
+    let pr = push(&mut nodes, Pair(sel, u4));
+    push(&mut nodes, Comp(pr, cs));
+    let plan = Plan { nodes }.compacted();
+    let c = crate::props::c05::Case { plan, wits: Default::default(), input_bits: vec![], dirty: false };
+    if crate::props::c05::one(ctx, &c, true) {
+        ctx.count("reach:incomparable-case-branches");
+    } else {
+        ctx.count("incomparable-case-not-built");
+        if let Err(e) = crate::gen::redeem_with(&c.plan, &c.wits, false) {
+            ctx.note(&format!("incomparable case plan failed: {e} :: {}", c.plan.text()));
+        }
+    }
+}
+
 pub fn run(ctx: &mut Ctx) {
+    for word_n in [3u32, 6] {
+        for depth in [2usize, 5, 9] {
+            for wide_left in [false, true] {
+                for take_left in [false, true] {
+                    incomparable_case(ctx, word_n, depth, wide_left, take_left);
+                }
+            }
+        }
+    }
     crate::props::c05::run_gen(ctx, true);
     for depth in [1usize, 10, 1000, 200_000] {
         limit_case(ctx, 6, depth);
